@@ -27,6 +27,19 @@ def check(out, ctx):
             out.violation("c08:%s:%s:%s" % (c.g.gid, c.rule, c.inp.encode().hex()),
                           "whitespace handling differs from the documented skipping points on %r" % c.inp,
                           common.case_payload(c, st))
+    # the callback sequence shows every entry of the Whitespace rule: a skip point that is missing or added
+    # shows up as a different sequence of Whitespace entries (the model's skip points are S's: C08_points)
+    wsname = "S:" + "Whitespace".encode().hex() + ":"
+    for c in st["cases"]:
+        a, b = c.impl.get("trace"), c.model.get("trace")
+        if a is None or b is None or a == b or c.impl["k"] not in ("OK", "ERR") or c.model["k"] not in ("OK", "ERR"):
+            continue
+        wa = [e for e in a.split(";") if e.startswith(wsname)]
+        wb = [e for e in b.split(";") if e.startswith(wsname)]
+        if wa != wb:
+            out.violation("c08skip:%s:%s:%s" % (c.g.gid, c.rule, c.inp.encode().hex()),
+                          "the Whitespace rule is entered at other points than the documented skipping points on %r (entries %d, documented %d)" % (c.inp, len(wa), len(wb)),
+                          common.case_payload(c, st))
     common.stream_coverage(out, st, cases,
                            "cases of the stream whose input contains whitespace or a near-miss character; non-trivial = grammar mixes skipping and @no_skip_ws rules or defines Whitespace; distinct by (grammar, rule, input)",
                            lambda c: ("@no_skip_ws" in c.g.text) or c.g.meta["user_ws"],
